@@ -948,7 +948,8 @@ def dispatch_oracle(ctx, case, r):
         return
     if case["dmrg"] and r["noise_types"] and r["outcome"] != "NotImplementedError":
         ctx.violation(f"solver=DMRG with noise types {r['noise_types']} is not refused: create_impl returned "
-                      f"{r['outcome']} (the sequence is then emulated with TDVP + quantum jumps)",
+                      f"{r['outcome']}" + (" (the sequence is then emulated with TDVP + quantum jumps)"
+                                          if r["outcome"] == "NoisyMPSBackendImpl" else " (the DMRG run goes ahead)"),
                       {"case": case, "impl": r, "finding_key": "dmrg-noise-not-refused"})
     if (not case["dmrg"] or not r["noise_types"]) and r["outcome"].endswith("Error"):
         ctx.violation(f"supported solver/noise combination refused: {r['outcome']}",
